@@ -268,3 +268,223 @@ Proof.
     with (o + Z.of_nat (List.length (c :: x1 ++ x2))) by (cbn [List.length]; rewrite app_length; lia).
   reflexivity.
 Qed.
+
+(** ** integer constants: decimal rendering, strconv.ParseInt, and the IntConstant rule *)
+Fixpoint render_nat_fuel (fuel : nat) (n : Z) (acc : bytes) : bytes :=
+  match fuel with
+  | O => acc
+  | S f => if n <? 10 then (48 + n) :: acc else render_nat_fuel f (n / 10) ((48 + n mod 10) :: acc)
+  end.
+Fixpoint ndigits (fuel : nat) (n : Z) : Z :=
+  match fuel with
+  | O => 0
+  | S f => if n <? 10 then 1 else 1 + ndigits f (n / 10)
+  end.
+(** 20 decimal digits cover every 64-bit magnitude *)
+Definition render_nat (n : Z) : bytes := render_nat_fuel 20 n [].
+Definition render_int (z : Z) : bytes := if z <? 0 then 45 :: render_nat (- z) else render_nat z.
+
+Lemma digits_value_digit : forall d t v, 0 <= d <= 9 ->
+  digits_value ((48 + d) :: t) v = digits_value t (v * 10 + d).
+Proof.
+  intros d t v Hd. cbn [digits_value].
+  destruct (Z.leb_spec 48 (48 + d)); [|lia]. destruct (Z.leb_spec (48 + d) 57); [|lia].
+  cbn [andb]. f_equal. lia.
+Qed.
+
+Lemma ndigits_nonneg : forall fuel n, 0 <= ndigits fuel n.
+Proof. induction fuel as [|f IH]; intros n; cbn [ndigits]; [lia|]. destruct (n <? 10); [lia | specialize (IH (n / 10)); lia]. Qed.
+
+Lemma render_nat_fuel_value : forall fuel n acc v,
+  0 <= n < 10 ^ Z.of_nat fuel ->
+  digits_value (render_nat_fuel fuel n acc) v = digits_value acc (v * 10 ^ ndigits fuel n + n).
+Proof.
+  induction fuel as [|f IH]; intros n acc v Hn.
+  - cbn in Hn. assert (n = 0) by lia. subst. cbn. f_equal. lia.
+  - cbn [render_nat_fuel ndigits]. destruct (Z.ltb_spec n 10) as [Hlt|Hge].
+    + rewrite (digits_value_digit n acc v) by lia. f_equal; lia.
+    + assert (Hq : 0 <= n / 10 < 10 ^ Z.of_nat f).
+      { split; [apply Z.div_pos; lia|]. apply Z.div_lt_upper_bound; [lia|].
+        replace (Z.of_nat (S f)) with (Z.of_nat f + 1) in Hn by lia.
+        rewrite Z.pow_add_r in Hn by lia. lia. }
+      rewrite (IH (n / 10) ((48 + n mod 10) :: acc) v Hq).
+      rewrite (digits_value_digit (n mod 10) acc) by (pose proof (Z.mod_pos_bound n 10); lia).
+      f_equal. pose proof (ndigits_nonneg f (n / 10)) as Hk.
+      rewrite Z.pow_add_r by lia. pose proof (Z.div_mod n 10). lia.
+Qed.
+
+Lemma render_nat_fuel_head : forall fuel n acc, (1 <= fuel)%nat -> 0 <= n < 10 ^ Z.of_nat fuel ->
+  exists d t, render_nat_fuel fuel n acc = d :: t /\ 48 <= d <= 57.
+Proof.
+  induction fuel as [|f IH]; intros n acc Hf Hn; [lia|].
+  cbn [render_nat_fuel]. destruct (Z.ltb_spec n 10) as [Hlt|Hge].
+  - exists (48 + n), acc. split; [reflexivity | lia].
+  - assert (Hq : 0 <= n / 10 < 10 ^ Z.of_nat f).
+    { split; [apply Z.div_pos; lia|]. apply Z.div_lt_upper_bound; [lia|].
+      replace (Z.of_nat (S f)) with (Z.of_nat f + 1) in Hn by lia.
+      rewrite Z.pow_add_r in Hn by lia. lia. }
+    destruct f as [|f']; [cbn in Hq; assert (n / 10 = 0) by lia; assert (n < 10) by (apply Z.div_small_iff in H; lia); lia|].
+    apply IH; [lia | exact Hq].
+Qed.
+
+Lemma parse_int64_nosign : forall d t, 48 <= d <= 57 ->
+  parse_int64 (d :: t) =
+  match digits_value (d :: t) 0 with
+  | None => inr NumSyntax
+  | Some v => if 9223372036854775807 <? v then inr NumRange else inl v
+  end.
+Proof.
+  intros d t Hd.
+  assert (Hc : d = 48 \/ d = 49 \/ d = 50 \/ d = 51 \/ d = 52 \/ d = 53 \/ d = 54 \/ d = 55 \/ d = 56 \/ d = 57) by lia.
+  destruct Hc as [->|[->|[->|[->|[->|[->|[->|[->|[->| ->]]]]]]]]]; reflexivity.
+Qed.
+
+(** strconv.ParseInt(render z, 10, 64) = z for every 64-bit z *)
+Lemma parse_int64_render : forall z, - 9223372036854775808 <= z <= 9223372036854775807 ->
+  parse_int64 (render_int z) = inl z.
+Proof.
+  intros z Hz. unfold render_int, render_nat.
+  assert (Hpow : 10 ^ Z.of_nat 20 = 100000000000000000000) by reflexivity.
+  destruct (Z.ltb_spec z 0) as [Hneg|Hpos].
+  - destruct (render_nat_fuel_head 20 (- z) [] ltac:(lia) ltac:(lia)) as (d & t & Hr & Hd).
+    pose proof (render_nat_fuel_value 20 (- z) [] 0 ltac:(lia)) as Hv. rewrite Hr in *.
+    unfold parse_int64. rewrite Hv. cbn [digits_value].
+    replace (0 * 10 ^ ndigits 20 (- z) + - z) with (- z) by lia.
+    destruct (Z.ltb_spec 9223372036854775808 (- z)); [lia|]. f_equal. lia.
+  - destruct (render_nat_fuel_head 20 z [] ltac:(lia) ltac:(lia)) as (d & t & Hr & Hd).
+    pose proof (render_nat_fuel_value 20 z [] 0 ltac:(lia)) as Hv. rewrite Hr in *.
+    rewrite (parse_int64_nosign d t Hd), Hv. cbn [digits_value].
+    replace (0 * 10 ^ ndigits 20 z + z) with z by lia.
+    destruct (Z.ltb_spec 9223372036854775807 z); [lia|]. reflexivity.
+Qed.
+
+(** the IntConstant rule: [-+]? Digit+ with strconv.ParseInt as its action *)
+Definition id_IntConstant : nat := 34.
+Definition p_sign (c : Z) : bool := in_chars c [45; 43] || in_ranges c [].
+
+Lemma int_rule_shape :
+  rule_id "IntConstant" = id_IntConstant
+  /\ nth_error rules id_IntConstant =
+     Some (CAct AIntConstant1 (CSeq [COpt (CClass [45; 43] [] false); CPlus (CRef id_Digit)])).
+Proof. vm_compute. split; reflexivity. Qed.
+
+Lemma digit_not_sign : forall d, p_digit d = true -> p_sign d = false.
+Proof.
+  intros d H. unfold p_digit, p_sign in *. cbn [in_chars in_ranges] in *.
+  rewrite orb_false_r in H. cbn [orb] in H. apply andb_true_iff in H. destruct H as [H1 H2].
+  apply Z.leb_le in H1. apply Z.leb_le in H2.
+  destruct (Z.eqb_spec 45 d); [lia|]. destruct (Z.eqb_spec 43 d); [lia|]. reflexivity.
+Qed.
+
+Lemma seq_go_cons : forall evf cr st0 e1 es st1 fr1 acc,
+  seq_go action val aerr VNil VList evf cr st0 (e1 :: es) st1 fr1 acc =
+  match evf e1 cr st1 fr1 with
+  | Done true v st2 fr2 => seq_go action val aerr VNil VList evf cr st0 es st2 fr2 (v :: acc)
+  | Done false _ st2 fr2 => Done false VNil (restore aerr st0 st2) fr2
+  | other => other
+  end.
+Proof. reflexivity. Qed.
+
+(** after the optional sign: digits, then the action on the whole text *)
+Lemma int_rule_digits : forall pre d ds follow f o0 o es fr v0,
+  ascii d -> p_digit d = true -> run_of p_digit ds -> stops p_digit follow ->
+  (List.length ds + 8 <= f)%nat ->
+  o = o0 + Z.of_nat (List.length pre) ->
+  seq_go action val aerr VNil VList (ev f) id_IntConstant (st_of (pre ++ (d :: ds) ++ follow) o0 es)
+         [CPlus (CRef id_Digit)] (st_of ((d :: ds) ++ follow) o es) fr [v0]
+  = Done true (VList [v0; VList (map (fun c => VBytes [c]) (d :: ds))])
+         (st_of follow (o0 + Z.of_nat (List.length (pre ++ d :: ds))) es) fr.
+Proof.
+  intros pre d ds follow f o0 o es fr v0 Hd Hp Hds Hstop Hf Ho.
+  destruct digit_matches as (Dm & Dn & De).
+  cbn [seq_go]. destruct f as [|f]; [lia|]. rewrite (ev_S f (CPlus _)). cbn [app].
+  rewrite (Dm f id_IntConstant d (ds ++ follow) o es [] ltac:(lia) Hd Hp
+             (run_app_ascii_next p_digit ds follow Hds (stops_ascii_next p_digit _ Hstop))).
+  rewrite (loop_run _ _ _ digit_matches ds follow f id_IntConstant (o + 1) es fr [VBytes [d]] Hds Hstop ltac:(lia)).
+  cbn [rev app map]. rewrite app_length. cbn [List.length].
+  replace (o + 1 + Z.of_nat (List.length ds)) with (o0 + Z.of_nat (List.length pre + S (List.length ds))) by lia.
+  reflexivity.
+Qed.
+
+Lemma int_rule : forall sign d ds follow f cr o es fr z,
+  (sign = [] \/ sign = [45] \/ sign = [43]) ->
+  ascii d -> p_digit d = true -> run_of p_digit ds -> stops p_digit follow ->
+  (List.length ds + 12 <= f)%nat ->
+  parse_int64 (sign ++ d :: ds) = inl z ->
+  ev f (CRef id_IntConstant) cr (st_of (sign ++ (d :: ds) ++ follow) o es) fr =
+  Done true (VInt z) (st_of follow (o + Z.of_nat (List.length (sign ++ d :: ds))) es) fr.
+Proof.
+  intros sign d ds follow f cr o es fr z Hsign Hd Hp Hds Hstop Hf Hz.
+  destruct int_rule_shape as (_ & HI).
+  destruct (class_matches [45; 43] []) as (Sm & Sn & Se). fold p_sign in Sm, Sn.
+  destruct f as [|f]; [lia|]. rewrite ev_S, HI.
+  destruct f as [|f]; [lia|]. rewrite ev_S.
+  destruct f as [|f]; [lia|]. rewrite ev_S. rewrite seq_go_cons.
+  destruct f as [|f]; [lia|]. rewrite (ev_S f (COpt _)).
+  assert (Hfin : forall st1 fr1,
+            st1 = st_of follow (o + Z.of_nat (List.length (sign ++ d :: ds))) es ->
+            finish_action action val aerr run_action AIntConstant1 id_IntConstant
+                          (st_of (sign ++ (d :: ds) ++ follow) o es) st1 fr1
+            = Done true (VInt z) st1 fr1).
+  { intros st1 fr1 ->. unfold finish_action. cbn [rest off]. unfold run_action, run_action_opt.
+    replace (o + Z.of_nat (List.length (sign ++ d :: ds)) - o) with (Z.of_nat (List.length (sign ++ d :: ds))) by lia.
+    replace (sign ++ (d :: ds) ++ follow) with ((sign ++ d :: ds) ++ follow) by (rewrite <- app_assoc; reflexivity).
+    rewrite takeZ_app_exact, Hz. reflexivity. }
+  destruct Hsign as [->|[->| ->]].
+  - (* no sign: the optional class fails on a digit *)
+    cbn [app]. rewrite (Sn f id_IntConstant d (ds ++ follow) o es [] ltac:(lia) Hd (digit_not_sign d Hp)).
+    pose proof (int_rule_digits [] d ds follow (S f) o o es [] VNil Hd Hp Hds Hstop ltac:(lia) ltac:(cbn; lia)) as Hs.
+    cbn [app] in Hs. rewrite Hs. cbv iota beta. rewrite (Hfin _ _ eq_refl). reflexivity.
+  - cbn [app].
+    rewrite (Sm f id_IntConstant 45 (d :: ds ++ follow) o es [] ltac:(lia) ltac:(unfold ascii; lia) eq_refl Hd).
+    pose proof (int_rule_digits [45] d ds follow (S f) o (o + 1) es [] (VBytes [45]) Hd Hp Hds Hstop ltac:(lia) ltac:(cbn; lia)) as Hs.
+    cbn [app] in Hs. rewrite Hs. cbv iota beta. rewrite (Hfin _ _ eq_refl). reflexivity.
+  - cbn [app].
+    rewrite (Sm f id_IntConstant 43 (d :: ds ++ follow) o es [] ltac:(lia) ltac:(unfold ascii; lia) eq_refl Hd).
+    pose proof (int_rule_digits [43] d ds follow (S f) o (o + 1) es [] (VBytes [43]) Hd Hp Hds Hstop ltac:(lia) ltac:(cbn; lia)) as Hs.
+    cbn [app] in Hs. rewrite Hs. cbv iota beta. rewrite (Hfin _ _ eq_refl). reflexivity.
+Qed.
+
+Lemma p_digit_digit : forall d, 0 <= d <= 9 -> ascii (48 + d) /\ p_digit (48 + d) = true.
+Proof.
+  intros d Hd. split; [unfold ascii; lia|]. unfold p_digit. cbn [in_chars in_ranges orb].
+  destruct (Z.leb_spec 48 (48 + d)); [|lia]. destruct (Z.leb_spec (48 + d) 57); [|lia]. reflexivity.
+Qed.
+
+Lemma render_nat_fuel_run : forall fuel n acc, 0 <= n ->
+  run_of p_digit acc -> run_of p_digit (render_nat_fuel fuel n acc)
+  /\ (List.length (render_nat_fuel fuel n acc) <= fuel + List.length acc)%nat.
+Proof.
+  induction fuel as [|f IH]; intros n acc Hn Hacc; cbn [render_nat_fuel]; [split; [exact Hacc | lia]|].
+  destruct (Z.ltb_spec n 10) as [Hlt|Hge].
+  - split; [constructor; [apply p_digit_digit; lia | exact Hacc] | cbn [List.length]; lia].
+  - assert (Hm : 0 <= n mod 10 <= 9) by (pose proof (Z.mod_pos_bound n 10); lia).
+    destruct (IH (n / 10) ((48 + n mod 10) :: acc) ltac:(apply Z.div_pos; lia)
+                 ltac:(constructor; [apply p_digit_digit; exact Hm | exact Hacc])) as [H1 H2].
+    split; [exact H1 | cbn [List.length] in H2; lia].
+Qed.
+
+(** integer-constant round trip through the generated rule: the decimal spelling of any 64-bit z,
+    followed by something that is not a digit, is consumed exactly and yields z *)
+Lemma int_const_roundtrip : forall z follow f cr o es fr,
+  - 9223372036854775808 <= z <= 9223372036854775807 ->
+  stops p_digit follow -> (32 <= f)%nat ->
+  ev f (CRef id_IntConstant) cr (st_of (render_int z ++ follow) o es) fr =
+  Done true (VInt z) (st_of follow (o + Z.of_nat (List.length (render_int z))) es) fr.
+Proof.
+  intros z follow f cr o es fr Hz Hstop Hf.
+  pose proof (parse_int64_render z Hz) as Hp.
+  assert (Hpow : 10 ^ Z.of_nat 20 = 100000000000000000000) by reflexivity.
+  unfold render_int, render_nat in *.
+  destruct (Z.ltb_spec z 0) as [Hneg|Hpos].
+  - destruct (render_nat_fuel_head 20 (- z) [] ltac:(lia) ltac:(lia)) as (d & t & Hr & Hd).
+    destruct (render_nat_fuel_run 20 (- z) [] ltac:(lia) ltac:(constructor)) as [Hrun Hlen].
+    rewrite Hr in *. inversion Hrun as [|d' t' [Hda Hdp] Ht]; subst.
+    cbn [List.length] in Hlen.
+    exact (int_rule [45] d t follow f cr o es fr z (or_intror (or_introl eq_refl)) Hda Hdp Ht Hstop ltac:(lia) Hp).
+  - destruct (render_nat_fuel_head 20 z [] ltac:(lia) ltac:(lia)) as (d & t & Hr & Hd).
+    destruct (render_nat_fuel_run 20 z [] ltac:(lia) ltac:(constructor)) as [Hrun Hlen].
+    rewrite Hr in *. inversion Hrun as [|d' t' [Hda Hdp] Ht]; subst.
+    cbn [List.length] in Hlen.
+    exact (int_rule [] d t follow f cr o es fr z (or_introl eq_refl) Hda Hdp Ht Hstop ltac:(lia) Hp).
+Qed.
